@@ -277,3 +277,36 @@ M("C20", "no-stamp", "driver/udp_socket.py", "                    self._socket.s
 M("C20", "handle-not-isolated", "driver/udp_socket.py",
   "                try:\n                    receive_handler.handle(received_bytes, remote_end)\n                    receive_handler.handled(remote_end)\n                except Exception:\n                    _LOGGER.exception(\"Unhandled exception in receive_handler func\")",
   "                receive_handler.handle(received_bytes, remote_end)\n                receive_handler.handled(remote_end)", rule="R4")
+
+# --------------------------------------------------------------------------- round-2 additions
+M("C11", "eco-guarded-by-value", "automation/async_facade.py",
+  "        if GeckoConstants.KEY_ECON_ACTIVE in self._spa.accessors:\n            self._ecomode = GeckoSwitch(",
+  "        if GeckoConstants.KEY_ECON_ACTIVE in self._spa.accessors and self._spa.accessors[GeckoConstants.KEY_ECON_ACTIVE].value != \"NA\":\n            self._ecomode = GeckoSwitch(", rule="R3")
+M("C11", "eco-guard-alias-twin", "automation/async_facade.py",
+  "        if GeckoConstants.KEY_ECON_ACTIVE in self._spa.accessors:\n            self._ecomode = GeckoSwitch(",
+  "        eco_key = GeckoConstants.KEY_ECON_ACTIVE\n        if eco_key in self._spa.accessors:\n            self._ecomode = GeckoSwitch(", expect="silent")
+M("C12", "all-devices-sorted", "driver/spastruct.py", "        self.all_devices = log_class.all_device_keys", "        self.all_devices = sorted(log_class.all_device_keys)", rule="R1")
+M("C12", "user-demands-set", "driver/async_spastruct.py", "        self.user_demands = log_class.user_demand_keys", "        self.user_demands = list(set(log_class.user_demand_keys))", rule="R1")
+M("C12", "all-devices-copy-twin", "driver/async_spastruct.py", "        self.all_devices = log_class.all_device_keys", "        self.all_devices = list(log_class.all_device_keys)", expect="silent")
+M("C14", "heater-sync-rounds", "automation/heater.py", "        self._target_temperature_sensor.accessor.value = new_temperature", "        self._target_temperature_sensor.accessor.value = round(new_temperature)", rule="R5")
+M("C14", "heater-async-skip-in-range", "automation/heater.py",
+  "        await self._target_temperature_sensor.accessor.async_set_value(new_temperature)",
+  "        if self.min_temp <= new_temperature <= self.max_temp:\n            await self._target_temperature_sensor.accessor.async_set_value(new_temperature)", rule="R5")
+M("C14", "heater-skip-equal-twin", "automation/heater.py",
+  "        await self._target_temperature_sensor.accessor.async_set_value(new_temperature)",
+  "        if new_temperature == self.target_temperature:\n            return\n        await self._target_temperature_sensor.accessor.async_set_value(new_temperature)", expect="silent")
+M("C18", "async-log-by-cfg-version", "async_spa.py", "-log-{self.log_version}\"", "-log-{self.config_version}\"", rule="R8")
+M("C18", "sync-cfg-infix", "spa.py", "f\"geckolib.driver.packs.{plateform_key}-cfg-{self.config_version}\"", "f\"geckolib.driver.packs.{plateform_key}-log-{self.config_version}\"", rule="R8")
+M("C18", "async-platform-not-lowered", "async_spa.py", "        plateform_key = config_file_handler.plateform_key.lower()", "        plateform_key = config_file_handler.plateform_key", rule="R8")
+M("C18", "async-name-concat-twin", "async_spa.py",
+  "        pack_module_name = f\"geckolib.driver.packs.{plateform_key}\"", "        pack_module_name = \"geckolib.driver.packs.\" + plateform_key", expect="silent")
+M("C19", "sim-log-by-cfg-version", "utils/simulator.py", "-log-{self.snapshot.log_version}\"", "-log-{self.snapshot.config_version}\"", rule="R5")
+M("C19", "sim-local-version-twin", "utils/simulator.py",
+  "            log_module_name = (\n                f\"geckolib.driver.packs.{plateform_key}-log-{self.snapshot.log_version}\"\n            )",
+  "            log_version = self.snapshot.log_version\n            log_module_name = f\"geckolib.driver.packs.{plateform_key}-log-{log_version}\"", expect="silent")
+M("C20", "handled-no-reset", "driver/udp_protocol_handler.py",
+  "        \"\"\"Base class implementation for when the data has been handled\"\"\"\n        self._reset_timeout()\n        assert self._async_on_handled is None",
+  "        \"\"\"Base class implementation for when the data has been handled\"\"\"\n        assert self._async_on_handled is None", rule="R8")
+M("C20", "loop-skips-flagged-twin", "driver/udp_protocol_handler.py",
+  "        \"\"\"Base class implementation for when the data has been handled\"\"\"\n        self._reset_timeout()\n        assert self._async_on_handled is None\n        if self._on_handled is not None:\n            self._on_handled(self, sender)",
+  "        \"\"\"Base class implementation for when the data has been handled\"\"\"\n        self._reset_timeout()\n        assert self._async_on_handled is None\n        if self._on_handled is not None:\n            self._on_handled(self, sender)\n        _LOGGER.debug(\"handled\")", expect="silent")
